@@ -40,17 +40,17 @@ CLAIMS = {
         ref="4 C20"),
 
     "C01": dict(
-        technique="static analysis: emitted program vs. an independently written reference language, as automata, on an expression catalogue; THIR case-table evaluation of the encoder (emission table) + regex algebra on the emitted text (language equality with reference, flag typestate)",
+        technique="static analysis: the parser function (token::parse::parse) evaluated from its THIR with a model of the nom / pori combinators on a catalogue of ~12 700 expression texts, compared with an independently written reference reading of the README syntax (token trees); emitted program vs. an independently written reference language, as automata, on an expression catalogue; THIR case-table evaluation of the encoder (emission table) + regex algebra on the emitted text (language equality with reference, flag typestate)",
         text="On every buildable catalogue expression with a crisp reference (no tree wildcard inside a branch, no class) the program encode::compile emits has exactly the language the README gives to the expression (catalogue shapes only). "
              "The encoder is a syntax-directed translation; conformance follows by structural induction from finitely many "
              "obligations that are decided on the text it emits in every case (grouping x context x position x token "
              "shape): leaf languages (separator-free, right length, literals only through regex::escape under an explicit "
              "flag), tree-wildcard fragment = reference language R(left, right, rooted) over {SEP, NL, OTHER}, classes "
              "compiled case-sensitively, every `.` under dot-all, alternation = union of all branches, repetition = "
-             "body{m,n}, anchoring, both Program impls match with their own program, and the parser's bound specification (`repetition::bounds`, evaluated with a model of the nom combinators) gives the documented (lower, upper) for every documented form. Necessary conditions covering "
+             "body{m,n}, anchoring, both Program impls match with their own program, and the parser's bound specification (`repetition::bounds`, evaluated with a model of the nom combinators) gives the documented (lower, upper) for every documented form; on ~12 700 catalogue texts (every sequence of up to three atoms - literals, escapes, wildcards, separators, tree wildcards, classes, flags - and every atom inside every alternation / repetition form in several contexts, plus malformed texts) the parser accepts exactly the documented syntax and builds the documented token tree: kinds, unescaped literal text, the case flag in force at each literal (flags apply in text order, into and out of groups), class members and negation, bounds, the separators a tree wildcard absorbs. Necessary conditions covering "
              "the whole mechanism; whole-expression language equality is not computed.",
-        note=ASSUME + "Assumed: regex crate semantics; the nom grammar delivers the tokens the text denotes (only its "
-             "literal/escape sets, in C18, and its repetition bounds are decided). Known finding: rooted tree wildcard in first position (pinned by an existing test).",
+        note=ASSUME + "Assumed: regex crate semantics; nom / pori combinator semantics as modelled in sa/nommodel.py; outside the text catalogue the parser is "
+             "assumed to deliver the tokens the text denotes. Known finding: rooted tree wildcard in first position (pinned by an existing test).",
         ref="4 C01"),
     "C04": dict(
         technique="static analysis: capturing groups of the emitted program vs. capturing tokens on an expression catalogue; emission table of the encoder + regex algebra (group count / content), writer-reader table agreement, THIR evaluation of the capture indexers",
@@ -101,13 +101,13 @@ CLAIMS = {
         note=ASSUME + "Not decided: Token::literals/components beyond the dot catalogue's shapes; `never sometimes` is C06's clause.",
         ref="4 C12"),
     "C06": dict(
-        technique="static analysis: rule checker verdict (THIR evaluation on whole trees) vs. the documented rules computed independently by expansion, on an expression catalogue; THIR case-table evaluation of the three check functions against a reference decision table + loop-carried-dependence rule + evaluation of the traversal on abstract trees",
+        technique="static analysis: the parser function (token::parse::parse) evaluated from its THIR with a model of the nom / pori combinators on a catalogue of ~12 700 expression texts, compared with an independently written reference reading of the README syntax (accepted / rejected); rule checker verdict (THIR evaluation on whole trees) vs. the documented rules computed independently by expansion, on an expression catalogue; THIR case-table evaluation of the three check functions against a reference decision table + loop-carried-dependence rule + evaluation of the traversal on abstract trees",
         text="On ~20 000 catalogue expressions the rule functions accept exactly the expressions that respect the documented rules (adjacent boundaries / zero-or-more wildcards under every choice of branches and one or two passes of repetition bodies, sole tree / separator / wildcard bodies, rooting branches), both directions (catalogue shapes only). "
              "Decides ~1600 decision cells of check_branch / check_alternation / check_repetition (terminal shapes x "
              "neighbour predicates x bound shapes) against a reference written from the documented rules; context-freedom "
              "twice: no loop-assigned variable reaches a check argument, and on a catalogue of abstract trees every branch "
              "body is checked exactly once with exactly its own nearest neighbours; Starting/Ending selection; boundary "
-             "kinds; bounds and size predicates; check = all four rules; Checked constructed only by audited functions.",
+             "kinds; bounds and size predicates; check = all four rules; Checked constructed only by audited functions; on ~12 700 catalogue texts the parser accepts exactly the texts of the documented syntax (flags anywhere but inside a tree wildcard or at the end of a sub-expression, delimiters balanced, bounds well-formed, tree wildcards delimited) and rejects the others (C06.syntax).",
         note=ASSUME + "Not decided: completeness of the rule set; the group_by pipeline of `boundary()`.",
         ref="4 C06"),
     "C11": dict(
@@ -119,19 +119,21 @@ CLAIMS = {
         note=ASSUME + "Unix: PATHS_ARE_CASE_INSENSITIVE = false. Not decided: case-folded equality; classes listing a separator.",
         ref="4 C11"),
     "C18": dict(
-        technique="static analysis: constants of resolved nom calls in the parser's THIR vs. evaluated is_meta_character (set equalities) + THIR evaluation of escape",
-        text="Decides that escape() and the parser agree on the meta-character set: E = M, S = M + {/,\\}, same escape "
-             "character, class escapes consistent, contextual meta-characters escapable; escape evaluated on strings "
-             "covering every meta-character.",
-        note=ASSUME + "Assumed: nom combinator semantics. Not decided: that the escaped text builds / is invariant (C01, C06, C11).",
+        technique="static analysis: the parser function evaluated from its THIR with a model of the nom combinators on probe texts and on escaped strings vs. evaluated is_meta_character / escape (set inclusions, round trip)",
+        text="Decides that escape() and the parser agree on the meta-character set, on the parser itself and independently of how the sets are spelled: "
+             "M (is_meta_character evaluated on ASCII and on non-ASCII characters with ASCII low bytes) within E (`\\x` is read as the literal x), "
+             "S (characters that end a literal when unescaped) within M + {/,\\}, M within S; every character can be a class member as written or escaped, contextual "
+             "meta-characters escapable; escape evaluated on strings covering every meta-character; for ~300 strings (every ASCII character, every pair of "
+             "meta-characters, path-like, pattern-like, non-ASCII texts) the parser reads escape(s) as literals and separators spelling s (C18.roundtrip).",
+        note=ASSUME + "Assumed: nom combinator semantics as modelled in sa/nommodel.py. Not decided: that the escaped text passes the rule checker and is invariant (C06, C11).",
         ref="4 C18"),
     "C19": dict(
-        technique="static analysis: Token::into_owned evaluated on an expression catalogue (identity on trees); THIR evaluation of the generic fold_map on a catalogue of abstract trees + variant tables + provenance of (tree, program) pairs + who-may-construct",
+        technique="static analysis: parser evaluated from its THIR on a text catalogue (stored expression); Token::into_owned evaluated on an expression catalogue (identity on trees); THIR evaluation of the generic fold_map on a catalogue of abstract trees + variant tables + provenance of (tree, program) pairs + who-may-construct",
         text="On ~5 600 buildable catalogue expressions Token::into_owned returns a structurally identical tree (catalogue shapes only). "
              "Decides that conversions preserve structure: variant-preserving kind tables, Token::into_owned rebuilds every "
              "catalogue tree identically, every Glob/Any construction pairs a tree with the program compiled from it, FromStr / "
              "TryFrom / Display / Pattern routes reach new / parse_and_check; after a partition the stored expression (what Display writes) is "
-             "the text of the remaining tokens, for borrowed and owned expressions (C08.bytes).",
+             "the text of the remaining tokens, for borrowed and owned expressions (C08.bytes); the parser stores exactly the text it was given as the expression Display writes, on ~10 700 accepted catalogue texts (C19.text).",
         note=ASSUME + "Not decided: equality of behaviour as such.",
         ref="4 C19"),
     "C05": dict(
@@ -200,12 +202,12 @@ CLAIMS = {
              "when the minimum exceeds the deepest entry of the actual tree (run-time quantity); termination (walkdir's).",
         ref="4 C15"),
     "C17": dict(
-        technique="static analysis: THIR evaluation of the rule functions on failing abstract trees (provenance of spans) + tables for union and LocatedError::span",
+        technique="static analysis: the parser function (token::parse::parse) evaluated from its THIR with a model of the nom / pori combinators on a catalogue of ~12 700 expression texts, compared with an independently written reference reading of the README syntax (token annotations); THIR evaluation of the rule functions on failing abstract trees (provenance of spans) + tables for union and LocatedError::span",
         text="Decides where spans come from: every span in a RuleError produced by the four rules is a token annotation or a "
              "union of annotations of the same expression; union = (min start, max end - min start); every LocatedError::span "
              "ends on a character boundary of the text at its location (empty, ASCII, multi-byte); partition shifts spans and "
-             "expression by the same offset (C08.bytes); capture spans are token annotations (C04.captures).",
-        note=ASSUME + "Assumed: pori offsets are on character boundaries. Not decided: spans inside nom's error stack beyond the entry point.",
+             "expression by the same offset (C08.bytes); capture spans are token annotations (C04.captures); on ~10 700 accepted catalogue texts (with multi-byte characters, escapes, flags, nesting) every token's annotation is the byte span of its own text in the expression - from the token or from its preceding flags to its end (C17.tokens) - and the stored expression is the text parsed.",
+        note=ASSUME + "Assumed: nom / pori combinator semantics as modelled in sa/nommodel.py (pori::span = location before, location difference after). Not decided: spans inside nom's error stack beyond the entry point.",
         ref="4 C17"),
 }
 
